@@ -70,11 +70,13 @@ PROPS["C02"] = {
     "assumptions": ["safe primes are injected through hook H1", "reference Lagrange/curve arithmetic is correct"],
     "tiers": {
         "quick": [
+            {"run": "^TestSequentialKeygens$", "shards": 5, "timeout": 2400},
             {"run": "^TestFrost$", "checks": 1200, "shards": 5},
             {"run": "^TestDoerner$", "checks": 120, "shards": 3},
             {"run": "^TestCMP$", "checks": 16, "shards": 16, "timeout": 1500},
         ],
         "thorough": [
+            {"run": "^TestSequentialKeygens$", "shards": 12, "timeout": 7000},
             {"run": "^TestFrost$", "checks": 40000, "shards": 6},
             {"run": "^TestDoerner$", "checks": 4000, "shards": 4},
             {"run": "^TestCMP$", "checks": 480, "shards": 16, "timeout": 9000},
